@@ -8,6 +8,8 @@
   Core Lean only.
 -/
 import PM.Map
+import PM.Step
+import PM.StepWF
 namespace PM
 
 /-- left-to-right composition of step maps, one association side for all of them -/
@@ -42,5 +44,24 @@ def coveredFold : List StepMap → Int → Int → Bool
     a replace-around step around an empty gap do, unless nothing is deleted after the gap) -/
 def StepMap.noTouch (m : StepMap) : Bool :=
   m.ranges.all (fun r => m.ranges.all (fun r' => decide (r'.2.1 ≤ 0) || decide (r.1 + r.2.1 ≠ r'.1)))
+
+/-! ### the side conditions of the C03 theorems on a replace-around step, as executable guards -/
+
+/-- well-formed payload and ordered positions (`StepWF` and `StepOrdered` of PM/StepWF.lean); what
+    the left-side theorems ask of a replace-around step -/
+def aroundWFB (st : Step) : Bool := StepWF st && StepOrdered st
+
+/-- … and not the touching-empty-gap shape (`gapFrom = gapTo = to` with slice content after the
+    insertion point); what the right-side theorems ask -/
+def aroundOKB : Step → Bool
+  | .replaceAround f t gf gt sl ins b =>
+    aroundWFB (.replaceAround f t gf gt sl ins b) &&
+      (decide (gf < gt) || decide (gt < t) || decide ((ins : Int) = sl.size))
+  | _ => true
+
+/-- the gap is not empty, or nothing is deleted after it (the step's map is `noTouch`) -/
+def gapSepB : Step → Bool
+  | .replaceAround _ t gf gt _ _ _ => decide (gf < gt) || decide (gt = t)
+  | _ => true
 
 end PM
